@@ -69,6 +69,9 @@ def main():
         return
     from oracle import native_calls as NC
     method = qual.split('.')[-1]
+    if 'ghost.fault' in (req.get('obligation') or '') or 'ghost.pool' in (req.get('obligation') or ''):
+        print(json.dumps(replay_faults(b, rate, two_d), default=str))
+        return
     if qual.startswith('SgzCropper.'):
         print(json.dumps(replay_crop(model, shape, rate, b), default=str))
         return
@@ -112,6 +115,51 @@ def main():
         NC.cleanup()
     print(json.dumps({'reproduced': bool(bad), 'detail': bad[:3] if bad else f'{len(cases)} concrete call(s) behaved as specified',
                       'case': cases[0] if cases else None}, default=str))
+
+
+def replay_faults(b, rate, two_d):
+    """inject a failure (exception / short read / empty read) at every position of the range-read sequence of every
+    public read method on an oracle-written file of this layout: a call that returns normally is the failing input"""
+    from oracle import native_calls as NC
+    from seismic_zfp.read import SgzReader
+    shape = [9, 17] if two_d else [9, 10, 13]
+    fn, dec, hdr = NC.oracle_file(shape, rate, b)
+    if two_d:
+        calls = [('get_trace', {'index': 5}), ('read_subplane', dict(min_trace=1, max_trace=8, min_z=2, max_z=15))]
+    else:
+        calls = [('read_crossline', {'xl_id': 5}), ('read_zslice', {'zslice_id': 3}), ('read_inline', {'il_id': 2}),
+                 ('read_subvolume', dict(min_il=0, max_il=9, min_xl=1, max_xl=7, min_z=0, max_z=13)), ('get_trace', {'index': 11}),
+                 ('read_volume', {}), ('gen_trace_header', {'index': 7})]
+    bad = []
+    tried = 0
+    try:
+        for method, args in calls:
+            for kind in ('raise', 'short', 'empty'):
+                for k in range(0, 40):
+                    f = NC.CountingFile(fn, 'rb')
+                    try:
+                        rd = SgzReader(f)
+                        f._count = 0
+                        f.log.clear()
+                        f.fault = (k, kind)
+                        try:
+                            getattr(rd, method)(**args)
+                            raised = False
+                        except Exception:
+                            raised = True
+                        hit = f._count > k
+                    finally:
+                        f.close()
+                    if not hit:
+                        break
+                    tried += 1
+                    if not raised:
+                        bad.append(f'{method}({args}) returned normally although range read #{k} of the call failed ({kind})')
+                        break
+    finally:
+        NC.cleanup()
+    return {'reproduced': bool(bad), 'detail': bad[:6] or f'{tried} injected faults all surfaced as exceptions',
+            'case': {'shape': shape, 'rate': rate, 'blockshape': b}}
 
 
 def replay_blockshape(fn, model):
